@@ -5,3 +5,7 @@ mod share_conversion_aby;
 pub(crate) mod step;
 pub use share_conversion_aby::{convert_to_fp25519, expand_shared_array_in_place};
 pub mod sigmoid;
+
+// Verification hook (guard: `--cfg ipa_verif`, test builds only). Compiled out unless the guard is set.
+#[cfg(all(test, ipa_verif))]
+pub(crate) use multiplication::integer_mul as ipa_verif_h7_integer_mul;
